@@ -120,7 +120,7 @@ Proof. reflexivity. Qed.
    the function: the body runs in the captured scope (`call` has no scope argument), and the
    caller's bindings are unchanged afterwards *)
 Lemma closure_captures_by_value : forall mods n c e f clo v,
-  lookup f e = Some clo ->
+  lookup_var f e = Some clo ->
   eval_term mods (S (S n)) c e (Access (mkAccess (Some (Identifier f)) [])) v =
   with_env e (tick st0 (if is_callable clo then call mods n clo (tail_arg clo v) st0 else ret clo)).
 Proof.
@@ -128,7 +128,7 @@ Proof.
 Qed.
 
 Corollary call_independent_of_caller_scope : forall mods n c1 c2 e1 e2 f clo v,
-  lookup f e1 = Some clo -> lookup f e2 = Some clo ->
+  lookup_var f e1 = Some clo -> lookup_var f e2 = Some clo ->
   bind (eval_term mods (S (S n)) c1 e1 (Access (mkAccess (Some (Identifier f)) [])) v) (fun x => ret (fst x)) =
   bind (eval_term mods (S (S n)) c2 e2 (Access (mkAccess (Some (Identifier f)) [])) v) (fun x => ret (fst x)).
 Proof.
@@ -463,13 +463,15 @@ Proof.
       destruct (bind_var b l w) as [b1| | |] eqn:Hq1; try discriminate.
       eapply extends_trans; [eapply bind_var_extends; eassumption | eapply IHfs; eassumption].
   - destruct v as [| |vn vfs| |]; try discriminate. destruct (name_ok name vn); try discriminate.
-    revert b H. induction vfs as [|[[l|] w] r IHr]; intros b H; cbn [bind_star] in H.
+    destruct (bind_star b vfs) as [b2| | |] eqn:Hs; try discriminate. inversion H; subst b'.
+    eapply extends_trans; [|exists [(a_star, vnil)]; reflexivity].
+    clear H. revert b Hs. induction vfs as [|[[l|] w] r IHr]; intros b H; cbn [bind_star] in H.
     + inversion H; apply extends_refl.
     + destruct (bind_var b l w) as [b1| | |] eqn:Hb; try discriminate.
       eapply extends_trans; [eapply bind_var_extends; eassumption | eapply IHr; eassumption].
     + eapply IHr; eassumption.
   - inversion H; apply extends_refl.
-  - destruct (lookup x outer); try discriminate. apply eq_verdict_ok in H; subst; apply extends_refl.
+  - destruct (lookup_var x outer); try discriminate. apply eq_verdict_ok in H; subst; apply extends_refl.
   - apply type_verdict_ok in H. inversion H; apply extends_refl.
   - induction IH as [|q ps' Hq _ IHps]; try discriminate.
     destruct (pmatch n te outer b q v) as [b1| | |] eqn:Hq1; try discriminate.
@@ -589,7 +591,7 @@ Proof.
       destruct Hy as [Hy | Hy]; [right; apply Hd2; exact Hy | left; apply Hd1; exact Hy].
   - destruct Hwf.
   - inversion H. exists []; split; [reflexivity | intros y []].
-  - destruct (lookup x outer); try discriminate. apply eq_verdict_ok in H; subst.
+  - destruct (lookup_var x outer); try discriminate. apply eq_verdict_ok in H; subst.
     exists []; split; [reflexivity | intros y []].
   - apply type_verdict_ok in H. inversion H. exists []; split; [reflexivity | intros y []].
   - destruct ps as [|q0 ps0]; [cbn in H; discriminate|]. cbn [binders].
